@@ -318,6 +318,140 @@ pub fn run_case(c: &Value) -> Value {
            "hooked": cfg!(mpd_client_verif) && evs.iter().any(|e| e["e"] != "o"), "ev": if c["hooks"].as_bool().unwrap_or(false) { json!(evs) } else { json!([]) }})
 }
 
+/// Canonical bytes of one response, appended to `c` (same form as `canon`, without the JSON detour).
+fn canon_resp(r: &Response, c: &mut Vec<u8>) {
+    c.extend_from_slice(b"resp|");
+    let mut err: Option<Vec<u8>> = None;
+    for f in r.frames() {
+        match f {
+            Ok(f) => {
+                c.push(b'F');
+                for (k, v) in f.fields() {
+                    c.extend_from_slice(k.as_bytes());
+                    c.push(b':');
+                    c.extend_from_slice(v.as_bytes());
+                    c.push(b'\n');
+                }
+                if let Some(b) = f.binary() {
+                    c.extend_from_slice(format!("B{}:", b.len()).as_bytes());
+                    c.extend_from_slice(b);
+                }
+            }
+            Err(e) => {
+                let mut x = vec![b'E'];
+                x.extend_from_slice(e.code.to_string().as_bytes());
+                x.push(b'@');
+                x.extend_from_slice(e.command_index.to_string().as_bytes());
+                x.push(b'{');
+                x.extend_from_slice(e.current_command.as_deref().unwrap_or("").as_bytes());
+                x.push(b'}');
+                x.extend_from_slice(e.message.as_bytes());
+                err = Some(x);
+            }
+        }
+    }
+    match err {
+        None => c.extend_from_slice(b"E-|"),
+        Some(x) => {
+            c.extend(x);
+            c.push(b'|');
+        }
+    }
+}
+
+fn kind_of(r: &Result<Option<Response>, MpdProtocolError>) -> String {
+    match r {
+        Ok(Some(_)) => "resp".into(),
+        Ok(None) => "clean".into(),
+        Err(MpdProtocolError::InvalidMessage) => "invalid".into(),
+        Err(MpdProtocolError::Io(e)) if e.kind() == io::ErrorKind::UnexpectedEof => "ueof".into(),
+        Err(MpdProtocolError::Io(e)) => format!("io:{:?}", e.kind()),
+    }
+}
+
+/// (digest, nresp, last, again, hang) of one feed, without building JSON values (sweeps run tens of thousands of feeds)
+fn lean_run(flavour: &str, chunks: Vec<Vec<u8>>, maxcalls: usize, rt: &tokio::runtime::Runtime) -> (String, usize, String, String, bool) {
+    let mut all = vec![GREETING.to_vec()];
+    all.extend(chunks);
+    let rd = Chunks::new(all, false);
+    let mut c = vec![];
+    let (mut nresp, mut last, mut again) = (0usize, String::new(), String::new());
+    let mut terminal = false;
+    macro_rules! drive {
+        ($conn:ident, $recv:expr) => {{
+            for _ in 0..maxcalls {
+                let r = catch_unwind(AssertUnwindSafe(|| $recv));
+                let t = match &r {
+                    Ok(r) => kind_of(r),
+                    Err(_) => "PANIC".to_string(),
+                };
+                if terminal {
+                    again = t;
+                    break;
+                }
+                if let Ok(Ok(Some(resp))) = &r {
+                    canon_resp(resp, &mut c);
+                    nresp += 1;
+                }
+                last = t.clone();
+                if t != "resp" {
+                    terminal = true;
+                    if t == "PANIC" {
+                        again = "skipped".into();
+                        break;
+                    }
+                }
+            }
+            let io = $conn.into_inner();
+            io.hang
+        }};
+    }
+    let hang = if flavour == "sync" {
+        let mut conn = match Connection::connect(rd) {
+            Ok(c) => c,
+            Err(_) => return ("0".into(), 0, "connect_failed".into(), String::new(), false),
+        };
+        drive!(conn, conn.receive())
+    } else {
+        let mut conn = match rt.block_on(AsyncConnection::connect(rd)) {
+            Ok(c) => c,
+            Err(_) => return ("0".into(), 0, "connect_failed".into(), String::new(), false),
+        };
+        drive!(conn, rt.block_on(conn.receive()))
+    };
+    (fnv(&c).to_string(), nresp, last, again, hang)
+}
+
+/// One large stream cut in two at EVERY position lo, lo+step, ... < hi (an exact internal threshold is hit by exactly one of them):
+/// one `bigcase` record per DISTINCT outcome, with the number of cuts that produced it and the first such cut.
+pub fn run_sweep(c: &Value) -> Vec<Value> {
+    let stream = bytes_of(&c["stream"]);
+    let flavour = c["flavour"].as_str().unwrap_or("sync");
+    let lo = c["sweep"]["lo"].as_u64().unwrap_or(1) as usize;
+    let hi = (c["sweep"]["hi"].as_u64().unwrap_or(stream.len() as u64) as usize).min(stream.len());
+    let step = c["sweep"]["step"].as_u64().unwrap_or(1).max(1) as usize;
+    let maxcalls = 12 + stream.iter().filter(|&&b| b == b'\n').count();
+    let mut seen: Vec<(String, usize, String, String, bool, usize, usize)> = vec![];
+    let rt = tokio::runtime::Builder::new_current_thread().build().unwrap();
+    let mut cut = lo.max(1);
+    while cut < hi {
+        let chunks = split(&stream, &[cut]);
+        let (dig, nresp, last, again, hang) = lean_run(flavour, chunks, maxcalls, &rt);
+        match seen.iter_mut().find(|x| x.0 == dig && x.1 == nresp && x.2 == last && x.3 == again && x.4 == hang) {
+            Some(x) => x.5 += 1,
+            None => seen.push((dig, nresp, last, again, hang, 1, cut)),
+        }
+        cut += step;
+    }
+    seen.into_iter()
+        .map(|(dig, nresp, last, again, hang, count, first)| {
+            json!({"e": "bigcase", "id": c["id"], "sid": c["sid"], "len": stream.len(), "flavour": flavour, "digest": dig, "nresp": nresp, "last": last,
+                   "again": again, "nreads": 0, "nchunks": 2, "hang": hang, "exp_nresp": c["exp_nresp"], "exp_last": c["exp_last"], "exp_digest": c["exp_digest"],
+                   "sweep_count": count, "sweep_first_cut": first})
+        })
+        .collect()
+}
+
 /// Canonical byte form of the responses in `out` (twin of lib/wiregen.py::big_stream's `canon`).
 pub fn canon(out: &[Value]) -> Vec<u8> {
     let mut c = vec![];
@@ -377,6 +511,13 @@ pub fn main(args: &[String]) -> i32 {
             continue;
         }
         let c: Value = serde_json::from_str(l).expect("case json");
+        if c.get("sweep").is_some() {
+            for r in run_sweep(&c) {
+                writeln!(out, "{}", r).unwrap();
+            }
+            n += 1;
+            continue;
+        }
         let r = run_case(&c);
         writeln!(out, "{}", r).unwrap();
         n += 1;
